@@ -4,6 +4,7 @@ pub mod dec;
 pub mod e1;
 pub mod e1c;
 pub mod e2;
+pub mod enc_caps;
 pub mod e3;
 pub mod e4;
 pub mod e5;
